@@ -173,7 +173,7 @@ Proof.
 Qed.
 
 Lemma gpoll_bound s a e s' :
-  Pg s -> Inv1 s -> step_stream s a e = Some s' -> poll_event s a e = true -> gmeasure s' <= gmeasure s + 2.
+  Pg s -> Inv1 s -> step_stream s a e = Some s' -> poll_event s a e = true -> gmeasure s' <= gmeasure s + 20.
 Proof.
   intros P1 H1 H Hp. unfold Pg in P1.
   pose proof (i_cur s H1) as Hcur. clear H1.
